@@ -845,29 +845,46 @@ func r165held(c *an.Ctx, rule string) {
 			if loop == nil {
 				continue
 			}
-			var cmpCall *ssa.Call
+			// the loop function and the local closures / unseen helpers it calls directly
+			type site struct {
+				fn   *ssa.Function
+				call *ssa.Call // nil for f itself
+			}
+			bodies := []site{{fn: f}}
 			an.Instrs(f, func(in ssa.Instruction) {
-				if call, ok := in.(*ssa.Call); ok && call.Call.IsInvoke() && call.Call.Method.Name() == "Compare" && len(call.Call.Args) == 2 {
-					cmpCall = call
+				if call, ok := in.(*ssa.Call); ok && loop.Dominates(call.Block()) {
+					if g := an.TransparentCallee(call); g != nil && g != f {
+						bodies = append(bodies, site{fn: g, call: call})
+					}
 				}
 			})
+			var cmpCall *ssa.Call
+			for _, b := range bodies {
+				an.Instrs(b.fn, func(in ssa.Instruction) {
+					if call, ok := in.(*ssa.Call); ok && call.Call.IsInvoke() && call.Call.Method.Name() == "Compare" && len(call.Call.Args) == 2 {
+						cmpCall = call
+					}
+				})
+			}
 			if cmpCall == nil {
 				continue
 			}
 			found = true
-			var sel ssa.Instruction // the instruction that delivers the change (a select/send, or a call standing for one)
+			hasSend := false
 			an.Instrs(f, func(in ssa.Instruction) {
 				if an.IsSendSite(in) && loop.Dominates(in.Block()) {
-					sel = in
+					hasSend = true
 				}
 			})
-			if sel == nil {
+			if !hasSend {
 				c.Unk(rule, cons, f.Pos(), "no select that delivers the change found in the update loop")
 				continue
 			}
-			// the loop-carried state the reference derives from
+			// the loop-carried state the reference derives from: a phi at the loop header, a captured variable, or a map
 			var hdrPhis []*ssa.Phi
-			var maps []ssa.Value
+			var cells []*an.Cell
+			var mapVals []ssa.Value
+			var mapCells []*an.Cell
 			seen := map[ssa.Value]bool{}
 			var walk func(v ssa.Value)
 			walk = func(v ssa.Value) {
@@ -888,7 +905,20 @@ func r165held(c *an.Ctx, rule string) {
 					walk(x.Tuple)
 				case *ssa.Lookup:
 					if _, isMap := x.X.Type().Underlying().(*types.Map); isMap {
-						maps = append(maps, x.X)
+						if ld, isLoad := x.X.(*ssa.UnOp); isLoad && ld.Op == token.MUL {
+							if cell := an.CellOf(ld.X); cell != nil {
+								mapCells = append(mapCells, cell)
+								return
+							}
+						}
+						mapVals = append(mapVals, x.X)
+					}
+				case *ssa.UnOp:
+					if x.Op == token.MUL {
+						if cell := an.CellOf(x.X); cell != nil {
+							// a variable shared between the loop and its closures (captured), e.g. `last`
+							cells = append(cells, cell)
+						}
 					}
 				case *ssa.ChangeInterface:
 					walk(x.X)
@@ -897,12 +927,70 @@ func r165held(c *an.Ctx, rule string) {
 				}
 			}
 			walk(cmpCall.Call.Args[0])
-			if len(hdrPhis) == 0 && len(maps) == 0 {
+			if len(hdrPhis) == 0 && len(cells) == 0 && len(mapVals) == 0 && len(mapCells) == 0 {
 				c.Bad(rule, cons, cmpCall.Pos(), "the first operand of equivalence.Compare does not derive from state carried across iterations of the update loop (the last delivered value): each change is compared with its immediate predecessor only, so with a tolerance comparer a run of small steps is suppressed one by one and the subscriber keeps a value that is no longer equivalent to the stored one")
 				continue
 			}
 			why := ""
-			selDominates := func(b *ssa.BasicBlock) bool { return sel.Block().Dominates(b) }
+			// deliveredAfter: every way from instruction `in` (inside body b) to the next iteration delivers the change
+			deliveredAfter := func(b site, in ssa.Instruction) bool {
+				if b.call == nil {
+					t, _ := an.PathQuery{Target: func(x ssa.Instruction) bool { return x.Block() == loop }, Avoid: an.IsSendSite}.From(f, in)
+					return t == nil
+				}
+				// inside a closure: delivered before it returns ...
+				t, _ := an.PathQuery{Target: func(x ssa.Instruction) bool { _, isRet := x.(*ssa.Return); return isRet }, Avoid: an.IsSendSite}.From(b.fn, in)
+				if t == nil {
+					return true
+				}
+				// ... or it reports one constant verdict after this point, and the caller delivers on that verdict
+				var verdict *bool
+				same := true
+				for _, r := range an.Returns(b.fn) {
+					if !an.Reaches(in, r) || len(r.Results) != 1 {
+						continue
+					}
+					for _, lf := range an.PhiLeaves(r.Results[0]) {
+						k, isC := an.ConstBool(lf.Val)
+						if !isC {
+							same = false
+							continue
+						}
+						if verdict == nil {
+							verdict = &k
+						} else if *verdict != k {
+							same = false
+						}
+					}
+				}
+				if verdict == nil || !same {
+					return false
+				}
+				avoidEdge := func(from, to *ssa.BasicBlock) bool {
+					iff, isIf := from.Instrs[len(from.Instrs)-1].(*ssa.If)
+					if !isIf || from.Succs[0] == from.Succs[1] {
+						return false
+					}
+					cond, neg := iff.Cond, false
+					if u, isNot := cond.(*ssa.UnOp); isNot && u.Op == token.NOT {
+						cond, neg = u.X, true
+					}
+					if cond != ssa.Value(b.call) {
+						return false
+					}
+					// the edge on which the call's result differs from the verdict is infeasible here
+					other := !*verdict
+					if neg {
+						other = !other
+					}
+					if other {
+						return to == from.Succs[0]
+					}
+					return to == from.Succs[1]
+				}
+				t2, _ := an.PathQuery{Target: func(x ssa.Instruction) bool { return x.Block() == loop }, Avoid: an.IsSendSite, AvoidEdge: avoidEdge}.From(f, b.call)
+				return t2 == nil
+			}
 			for _, phi := range hdrPhis {
 				for i, e := range phi.Edges {
 					pred := loop.Preds[i]
@@ -920,38 +1008,66 @@ func r165held(c *an.Ctx, rule string) {
 							}
 							return
 						}
-						if !selDominates(p) {
+						// the new reference value arrives over this edge: a delivery must dominate it
+						delivered := false
+						an.Instrs(f, func(in ssa.Instruction) {
+							if an.IsSendSite(in) && loop.Dominates(in.Block()) && in.Block().Dominates(p) {
+								delivered = true
+							}
+						})
+						if !delivered {
 							why = fmt.Sprintf("the reference value is replaced on the edge from block %d to the loop header, which is taken without delivering the change (at %s)", p.Index, c.Prog.Rel(cmpCall.Pos()))
 						}
 					}
 					chk(e, pred, 0)
 				}
 			}
-			for _, m := range maps {
-				an.Instrs(f, func(in ssa.Instruction) {
-					if !loop.Dominates(in.Block()) {
+			for _, b := range bodies {
+				an.Instrs(b.fn, func(in ssa.Instruction) {
+					if b.call == nil && !loop.Dominates(in.Block()) {
 						return
 					}
 					isWrite := false
+					isOurMap := func(m ssa.Value) bool {
+						for _, mv := range mapVals {
+							if m == mv {
+								return true
+							}
+						}
+						if ld, isLoad := m.(*ssa.UnOp); isLoad && ld.Op == token.MUL {
+							if cell := an.CellOf(ld.X); cell != nil {
+								for _, mc := range mapCells {
+									if mc.Alloc == cell.Alloc {
+										return true
+									}
+								}
+							}
+						}
+						return false
+					}
 					switch x := in.(type) {
 					case *ssa.MapUpdate:
-						isWrite = x.Map == m
+						isWrite = isOurMap(x.Map)
 					case *ssa.Call:
-						isWrite = an.CalleeName(x) == "builtin delete" && len(x.Call.Args) == 2 && x.Call.Args[0] == m
+						isWrite = an.CalleeName(x) == "builtin delete" && len(x.Call.Args) == 2 && isOurMap(x.Call.Args[0])
+					case *ssa.Store:
+						if cell := an.CellOf(x.Addr); cell != nil {
+							for _, sc := range cells {
+								if sc.Alloc == cell.Alloc {
+									isWrite = true
+								}
+							}
+						}
 					}
 					if !isWrite {
 						return
 					}
-					t, _ := an.PathQuery{
-						Target: func(x ssa.Instruction) bool { return x.Block() == loop },
-						Avoid:  an.IsSendSite,
-					}.From(f, in)
-					if t != nil {
-						why = "the per-id reference map is written at " + c.Prog.Rel(in.Pos()) + " on a path that reaches the next iteration without delivering the change"
+					if !deliveredAfter(b, in) {
+						why = "the reference (last delivered value) is written at " + c.Prog.Rel(in.Pos()) + " on a path that reaches the next iteration without delivering the change"
 					}
 				})
 			}
-			c.Check(why == "", rule, cons, cmpCall.Pos(), fmt.Sprintf("%d loop-carried variable(s), %d map(s)", len(hdrPhis), len(maps)),
+			c.Check(why == "", rule, cons, cmpCall.Pos(), fmt.Sprintf("%d loop-carried variable(s), %d shared variable(s), %d map(s)", len(hdrPhis), len(cells), len(mapVals)+len(mapCells)),
 				why+": a suppressed change still moves the reference, so a run of small steps is never reported although the subscriber's value is no longer equivalent to the stored one")
 		}
 		if !found {
